@@ -715,4 +715,75 @@ Proof.
   intros l s2 stop _ time' u' l' s3 stop' E St. unfold ts_body in E.
   destruct St as [St|St]; rewrite St in E; inversion E; subst; reflexivity.
 Qed.
+
+(** ------------------------------------------------------------------------------------------ termination *)
+(** the "should terminate" result of one dispatch is the OR over ALL handlers invoked, each on the state it saw *)
+Fixpoint any_term {H:Type} (act:H -> S -> Q -> S * bool * bool) (t:Q) (hs:list H) (st:S) : bool :=
+  match hs with [] => false | h :: r => snd (fst (act h st t)) || any_term act t r (fst (fst (act h st t))) end.
+
+Lemma run_handlers_term_is_or {H:Type} (hid:H -> nat) act c : forall hs ids t st st' tm lw l,
+  run_handlers S hid act c hs ids t st = (st', tm, lw, l) -> tm = any_term act t (called hid ids hs) st.
+Proof.
+  induction hs as [|h r IH]; simpl; intros ids t st st' tm lw l E.
+  - inversion E; subst. reflexivity.
+  - unfold called. simpl. destruct (memb (hid h) ids) eqn:M.
+    + destruct (act h st t) as [[st1 tm1] lw1] eqn:Ea.
+      destruct (run_handlers S hid act c r ids t st1) as [[[st2 tm2] lw2] l2] eqn:E2. inversion E; subst.
+      simpl. rewrite Ea. simpl. f_equal. apply (IH _ _ _ _ _ _ _ E2).
+    + apply (IH _ _ _ _ _ _ _ E).
+Qed.
+
+(** a terminating handler anywhere in the called list makes the dispatch terminate, whatever runs after it *)
+Lemma any_term_true {H:Type} (act:H -> S -> Q -> S * bool * bool) t : forall hs st,
+  (exists pre h post, hs = pre ++ h :: post /\ snd (fst (act h (apply_all act t pre st) t)) = true) ->
+  any_term act t hs st = true.
+Proof.
+  intros hs st [pre [h [post [E Ht]]]]. subst hs. revert st Ht.
+  induction pre as [|p pre IH]; intros st Ht; simpl in *.
+  - unfold out1 in *. rewrite Ht. reflexivity.
+  - apply orb_true_iff. right. apply IH. exact Ht.
+Qed.
+
+(** after a triggered (resp. scheduled) event the simulation is over iff some invoked handler asked for it *)
+Lemma triggered_dispatch_terminates_iff time s u l s2 stop : BODY time s u = (l, s2, stop) ->
+  a_status (u_ans u) = ReachedEventTrigger ->
+  ts_over s2 = any_term th_act (a_tadv (u_ans u)) (called th_id (a_ids (u_ans u)) thandlers)
+                        (flow (ts_pay s) (ts_tadv s) (a_tadv (u_ans u))).
+Proof.
+  unfold ts_body. intros E St. rewrite St in E.
+  destruct (run_handlers S th_id th_act CTriggered thandlers (a_ids (u_ans u)) (a_tadv (u_ans u)) _) as [[[p' tm] lw] l'] eqn:E2.
+  inversion E; subst; clear E. simpl. apply (run_handlers_term_is_or _ _ _ _ _ _ _ _ _ _ _ E2).
+Qed.
+
+Lemma scheduled_dispatch_terminates_iff time s u l s2 stop : BODY time s u = (l, s2, stop) ->
+  a_status (u_ans u) = ReachedScheduledEvent ->
+  ts_over s2 = any_term h_act (a_tadv (u_ans u)) (called h_id (u_evids u) (ss_handlers ss))
+                        (flow (ts_pay s) (ts_tadv s) (a_tadv (u_ans u))).
+Proof.
+  unfold ts_body. intros E St. rewrite St in E.
+  destruct (handle_scheduled S subs (u_evids u) (a_tadv (u_ans u)) _) as [[[p' tm] lw] l'] eqn:E2.
+  inversion E; subst; clear E. simpl in E2.
+  destruct (run_handlers S h_id h_act CScheduled (ss_handlers ss) (u_evids u) (a_tadv (u_ans u)) _) as [[[p1 tm1] lw1] l1] eqn:E3.
+  inversion E2; subst; clear E2. simpl. rewrite orb_false_r. apply (run_handlers_term_is_or _ _ _ _ _ _ _ _ _ _ _ E3).
+Qed.
+
+(** once the simulation is over, TimeStepper::stepTo returns EndOfSimulation at once: no integrator call, no handler call *)
+Lemma over_returns_immediately reportAll time s orc log uses : ts_over s = true ->
+  LOOP reportAll time s orc log uses = TSRet S EndOfSimulation s orc log uses.
+Proof. intros H. destruct orc; simpl; rewrite H; reflexivity. Qed.
+
+(** MAIN (termination): when the dispatch of one integrator answer leaves the simulation over (a handler asked for
+    termination, or the final time was returned), that stepTo consumes no further integrator answer and makes no further
+    handler call: it returns with the state of that dispatch, the log extended by that dispatch only, and every later
+    stepTo returns EndOfSimulation without doing anything *)
+Lemma termination_requested_ends_run reportAll time s a orc log uses l s2 stop : ts_over s = false ->
+  BODY time s (MKUSE time s a) = (l, s2, stop) -> ts_over s2 = true ->
+  LOOP reportAll time s (a :: orc) log uses =
+    TSRet S (if stop || reportAll then a_status a else EndOfSimulation) s2 orc (log ++ l) (uses ++ [MKUSE time s a]) /\
+  forall ra time' orc', ts_stepTo S cf subs thandlers flow ra time' s2 orc' = TSRet S EndOfSimulation s2 orc' [] [].
+Proof.
+  intros H0 Eb H2. split.
+  - simpl. rewrite H0, Eb. destruct (stop || reportAll); [reflexivity|]. apply over_returns_immediately; auto.
+  - intros. unfold ts_stepTo. apply over_returns_immediately; auto.
+Qed.
 End TSL.
